@@ -184,14 +184,22 @@ impl<I: Interner> RenderAsRust<I> for FnPointer<I> {
                     .format(", ")
             )?;
         }
+        if self.sig.safety == Safety::Unsafe {
+            write!(f, "unsafe ")?;
+        }
         let parameters = self.substitution.0.as_slice(interner);
+        let inputs = parameters[..parameters.len() - 1]
+            .iter()
+            .map(|param| param.display(s).to_string())
+            .chain(if self.sig.variadic {
+                Some("...".to_owned())
+            } else {
+                None
+            });
         write!(
             f,
             "fn({}) -> {}",
-            parameters[..parameters.len() - 1]
-                .iter()
-                .map(|param| param.display(s))
-                .format(", "),
+            inputs.format(", "),
             parameters[parameters.len() - 1].display(s),
         )
     }
